@@ -290,3 +290,42 @@ func VerifC17ShellVarsUnicode() {
 	verifAssert(okv && verifConcreteBool(verifEqStr(val, v1)) && safe, "C17/shell-value-expands-to-other-value unicode-key")
 	verifCover("C17/shellvars-unicode/end")
 }
+
+// VerifC17ShellFormatNames: every spelling of the shell output format that `-o=` accepts (shell, s, sh) selects the
+// encoder whose every output line is NAME=VALUE with the value quoted for the shell — not some other encoder.
+func VerifC17ShellFormatNames() {
+	names := []string{"shell", "s", "sh"}
+	name := names[verifChoice("name", len(names))]
+	f, err := FormatFromString(name)
+	verifAssert(err == nil && f != nil && f.EncoderFactory != nil, "C17/shell-format-name-not-an-output-format name="+name)
+	if err != nil || f == nil || f.EncoderFactory == nil {
+		return
+	}
+	v := verifStr("v", 2, "\x01\x7f")
+	var root *CandidateNode
+	want := 1
+	switch verifChoice("shape", 3) {
+	case 0:
+		root = vDoc(vStr(v))
+	case 1:
+		root = vDoc(vMap(vStr("k"), vStr(v)))
+	default:
+		root = vDoc(vMap(vStr("k"), vSeq(vStr(v), vStr("w"))))
+		want = 2
+	}
+	var sb strings.Builder
+	encErr := f.EncoderFactory().Encode(c17Writer{&sb}, root)
+	verifAssert(encErr == nil, "C17/shell-encode-error name="+name)
+	if encErr != nil {
+		return
+	}
+	ns, vals, ok := c17Assignments(sb.String())
+	verifAssert(ok && len(ns) == want, "C17/shell-output-not-assignments name="+name)
+	if !ok || len(ns) != want {
+		return
+	}
+	verifAssert(c17IsName(ns[0]), "C17/shell-invalid-variable-name name="+name)
+	val, okv, safe := c17ReadValue(vals[0])
+	verifAssert(okv && safe && verifEqStr(val, v), "C17/shell-value-expands-to-other-value name="+name)
+	verifCover("C17/shellnames/end")
+}
